@@ -155,8 +155,19 @@ def display_list(stream, state=None):
             state['clips'] += 1
         elif name == b'gs':
             key = tokens[0][1:].decode()
-            if key.startswith('a'):
+            if key == 'a1' and not state.get('suppress'):
+                # `stream.set_alpha(1)` of draw_replacedbox (an int: every other alpha is a float): what the
+                # replacement draws until the matching Q is one opaque item
+                alphas = ','.join(
+                    str(x.numerator) if x.denominator == 1 else f'{x.numerator}/{x.denominator}'
+                    for x in state['alphas'])
+                transforms = ','.join(str(t) for t in state['transforms'])
+                out.append(f'r:0:{state["clips"]}:{alphas}:{transforms}')
+                state['suppress'] = True
+            elif key.startswith('a'):
                 state['alpha'] = Fraction(float(key[1:]))
+        elif state.get('suppress'):
+            pass
         elif name == b'cm':
             a, b, c, d, e, f = (float(x) for x in tokens[:6])
             if (a, b, c, d) == (1, 0, 0, 1):
@@ -192,6 +203,7 @@ def paint_page(document, page):
 # ---------------------------------------------------------------------------------------------------
 # scene generator
 
+EMPTY_SVG = "data:image/svg+xml,%3Csvg xmlns='http://www.w3.org/2000/svg' width='10' height='8'%3E%3C/svg%3E"
 Z_VALUES = ['auto', 'auto', '0', '-1', '-2', '1', '2', '1', '-1', '5']
 WORDS = ['ab', 'cd ef', 'g', 'hi jk lm', 'nop']
 
@@ -206,6 +218,7 @@ class Scene:
         self.max_depth = max_depth
         self.features = features or {}
         self.used = set()
+        self.geo = bool(self.features.get('geo'))   # geometry mode: only decorations whose paths are modelled
 
     # -- style pieces
     def new_id(self):
@@ -218,6 +231,8 @@ class Scene:
         parts = [f'color:{hexcode(4 * i + 1)}']
         if rng.random() < bg:
             parts.append(f'background:{hexcode(4 * i)}')
+        if self.geo:
+            return parts + self.geo_style(i, inline or border == 0.2)
         if not inline and rng.random() < border:
             sides = rng.choice(['border', 'border', 'border', 'border-left', 'border-top', 'border-bottom'])
             parts.append(f'{sides}:{rng.choice([1, 2, 4])}px solid {hexcode(4 * i + 2)}')
@@ -225,6 +240,38 @@ class Scene:
                 self.used.add('partial-border')
         if rng.random() < outline:
             parts.append(f'outline:{rng.choice([1, 2])}px solid {hexcode(4 * i + 3)}')
+        return parts
+
+    def geo_style(self, i, no_border):
+        """Geometry mode: four solid sides of independent widths, paddings, (elliptical) radii in px or %,
+        background-clip; everything whose path the model predicts."""
+        rng = self.rng
+        parts = []
+        if not no_border and rng.random() < 0.55:
+            widths = [rng.choice([1, 2, 3, 5, 8, 13]) for _ in range(4)]
+            if rng.random() < 0.3:
+                widths = [widths[0]] * 4
+            parts.append(f'border-style:solid;border-color:{hexcode(4 * i + 2)};'
+                         f'border-width:{" ".join(f"{w}px" for w in widths)}')
+            self.used.add('border-asym' if len(set(widths)) > 1 else 'border-sym')
+        if not no_border and rng.random() < 0.5:
+            parts.append('padding:' + ' '.join(f'{rng.choice([0, 1, 2, 4, 7])}px' for _ in range(4)))
+        if rng.random() < 0.45:
+            def radius():
+                return rng.choice(['0', '2px', '4px', '6px', '10px', '16px', '30px', '50%', '25%'])
+            if rng.random() < 0.4:
+                parts.append(f'border-radius:{radius()}')
+            else:
+                parts.append('border-radius:' + ' '.join(radius() for _ in range(4)) + ' / ' +
+                             ' '.join(radius() for _ in range(4)))
+            self.used.add('radius')
+        if rng.random() < 0.2:
+            parts.append(f'font-size:{rng.choice(["9.5px", "12.25px", "10.75px", "7.5px"])}')
+            self.used.add('fractional-font-size')
+        if rng.random() < 0.4:
+            clip = rng.choice(['padding-box', 'content-box', 'border-box'])
+            parts.append(f'background-clip:{clip}')
+            self.used.add(clip)
         return parts
 
     def effect_style(self, positioned=False, allow_overflow=True):
@@ -264,7 +311,7 @@ class Scene:
             parts.append(f'top:{rng.choice([0, 2, -3])}px;left:{rng.choice([0, 4, -2])}px')
         else:
             parts.append(f'top:{rng.randrange(0, 200)}px;left:{rng.randrange(0, 300)}px')
-            if rng.random() < 0.15:
+            if rng.random() < 0.15 and not self.geo:
                 parts.append('clip:rect(0px,30px,30px,0px)')
                 self.used.add('clip')
         self.used.add('positioned')
@@ -274,12 +321,25 @@ class Scene:
     def text(self):
         return self.rng.choice(WORDS)
 
+    def image(self, block):
+        """A replaced box (empty SVG): what it draws is one opaque `r` item of the display list."""
+        i = self.new_id()
+        style = self.paint_style(i) + self.effect_style(allow_overflow=False) + ['width:10px', 'height:8px']
+        if block:
+            style.append('display:block')
+        if self.rng.random() < 0.15:
+            style += self.position_style()
+        self.used.add('block-replaced' if block else 'inline-replaced')
+        return f'<img src="{EMPTY_SVG}" style="{";".join(style)}">'
+
     def inline_content(self, depth, budget=4):
         rng = self.rng
         out = []
         for _ in range(rng.randrange(1, budget + 1)):
             roll = rng.random()
-            if roll < 0.4 or depth <= 0:
+            if roll < 0.05 and not self.geo:
+                out.append(self.image(False))
+            elif roll < 0.4 or depth <= 0:
                 out.append(self.text() + ' ')
             elif roll < 0.62:
                 i = self.new_id()
@@ -293,7 +353,7 @@ class Scene:
             elif roll < 0.76:
                 i = self.new_id()
                 display = rng.choice(['inline-block', 'inline-block', 'inline-block', 'inline-flex',
-                                      'inline-table', 'inline-grid'])
+                                      'inline-grid' if self.geo else 'inline-table', 'inline-grid'])
                 style = [f'display:{display}'] + self.paint_style(i) + self.effect_style()
                 if display == 'inline-table':
                     style.append('border-collapse:separate')
@@ -418,7 +478,9 @@ class Scene:
         out = []
         for _ in range(rng.randrange(1, budget + 1)):
             roll = rng.random()
-            if depth <= 0 or roll < 0.25:
+            if roll < 0.04 and not self.geo:
+                out.append(self.image(True))
+            elif depth <= 0 or roll < 0.25:
                 i = self.new_id()
                 style = self.paint_style(i) + self.effect_style()
                 out.append(f'<p style="{";".join(style)}">{self.inline_content(depth - 1, 4)}</p>')
@@ -430,7 +492,7 @@ class Scene:
                 out.append(self.floating(depth - 1))
             elif roll < 0.77:
                 out.append(self.positioned(depth - 1))
-            elif roll < 0.89:
+            elif roll < 0.89 and not self.geo:
                 out.append(self.table(depth - 1))
             else:
                 out.append(self.flex_or_grid(depth - 1))
@@ -444,12 +506,16 @@ class Scene:
         if rng.random() < 0.15:
             page.append(f'border:2px solid {hexcode(0xe00000 + rng.randrange(1, 255))}')
         margin = ''
-        if rng.random() < 0.25:
+        if rng.random() < 0.25 and not self.geo:
             m = self.new_id()
             margin = (f'@top-left{{content:"m";{";".join(self.paint_style(m))}}}'
                       f'@bottom-center{{content:"n";color:{hexcode(4 * m + 3)}}}')
             self.used.add('margin-box')
         html_style, body_style = [], ['margin:0', 'font-size:10px', 'line-height:12px']
+        if self.geo:
+            body_style.append('font-family:weasyprint')
+            if rng.random() < 0.3:
+                page.append(f'padding:{rng.choice([0, 5, 10])}px')
         if rng.random() < 0.4:
             html_style.append(f'background:{hexcode(0xd00000 + rng.randrange(1, 255))}')
         if rng.random() < 0.3:
@@ -471,3 +537,244 @@ class Scene:
 def render(html):
     docs.quiet()
     return docs.render(html)
+
+
+# ---------------------------------------------------------------------------------------------------
+# geometry: the paths of the content stream vs the rectangles / rounded boxes of the laid-out boxes
+
+GEO_ATTRS = ('position_x position_y margin_left margin_top border_top_width border_right_width '
+             'border_bottom_width border_left_width padding_top padding_right padding_bottom padding_left '
+             'width height').split()
+RADII = ('top_left', 'top_right', 'bottom_right', 'bottom_left')
+TABLE_PART_NAMES = {'TableRowGroupBox', 'TableRowBox', 'TableColumnGroupBox', 'TableColumnBox'}
+
+
+def geo_of(box):
+    values = [Fraction(getattr(box, name, 0) or 0) for name in GEO_ATTRS]
+    radii = [[Fraction(r) for r in getattr(box, f'border_{corner}_radius', (0, 0))] for corner in RADII]
+    return values + radii
+
+
+def geometry_table(page_box):
+    """Entries of the `paintgeo` command for every tagged box of a laid-out page (after export_page)."""
+    from weasyprint.formatting_structure import boxes
+    entries = []
+
+    def visit(box):
+        if type(box).__name__ not in TABLE_PART_NAMES and hasattr(box, 'width'):
+            clip = box.style['background_clip'][0]
+            entries.append(['B', box._vid, geo_of(box), clip])
+        if isinstance(box, boxes.TextBox):
+            entries.append(['T', box._vid, Fraction(box.position_x), Fraction(box.position_y + box.baseline),
+                            Fraction(box.style['font_size'])])
+        for child in getattr(box, 'children', ()):
+            visit(getattr(child, '_box', child))
+
+    visit(page_box)
+    if page_box.background is not None:
+        entries.append(['A', 0] + [Fraction(v) for v in page_box.background.layers[-1].painting_area])
+    if page_box.canvas_background is not None:
+        entries.append(['C', 0] + [Fraction(v) for v in page_box.canvas_background.layers[-1].painting_area])
+    return entries
+
+
+def show_dec(value):
+    """Same as Drive/PaintGeo.lean `showDec`: at most six decimals, half away from zero."""
+    value = Fraction(value)
+    neg = value < 0
+    scaled = int(abs(value) * 1000000 + Fraction(1, 2))
+    ip, fp = divmod(scaled, 1000000)
+    digits = f'{fp:06d}'.rstrip('0')
+    body = f'{ip}.{digits}' if digits else str(ip)
+    return '-' + body if neg and scaled else body
+
+
+def geo_display_list(stream, state=None):
+    """Like display_list, with the clip *paths* and the geometry of every painted item."""
+    out = []
+    if state is None:
+        state = {'color': None, 'clips': (), 'alpha': Fraction(1), 'alphas': (), 'transforms': (),
+                 'tm': None, 'size': None}
+    stack = []
+    subpaths = []
+    for op in stream.stream:
+        tokens = op.split()
+        if not tokens:
+            continue
+        name = tokens[-1]
+        nums = tokens[:-1]
+        if name == b'q':
+            stack.append(dict(state))
+        elif name == b'Q':
+            state = stack.pop()
+        elif name == b'rg':
+            r, g, b = (round(float(x) * 255) for x in nums[:3])
+            state['color'] = (r << 16) | (g << 8) | b
+        elif name == b're':
+            subpaths.append('re(' + ','.join(show_dec(x.decode()) for x in nums) + ')')
+        elif name == b'm':
+            subpaths.append('m(' + ','.join(show_dec(x.decode()) for x in nums) + ')')
+        elif name in (b'l', b'c'):
+            text = name.decode() + '(' + ','.join(show_dec(x.decode()) for x in nums) + ')'
+            if subpaths:
+                subpaths[-1] += text
+            else:
+                subpaths.append(text)
+        elif name in (b'W', b'W*'):
+            state['clips'] = state['clips'] + ('+'.join(subpaths),)
+        elif name == b'n':
+            subpaths = []
+        elif name == b'gs':
+            key = nums[0][1:].decode()
+            if key == 'a1' and not state.get('suppress'):
+                alphas = ','.join(
+                    str(x.numerator) if x.denominator == 1 else f'{x.numerator}/{x.denominator}'
+                    for x in state['alphas'])
+                transforms = ','.join(str(t) for t in state['transforms'])
+                out.append(f'r:0:{alphas}:{transforms}:{"|".join(state["clips"])}:*')
+                state['suppress'] = True
+            elif key.startswith('a'):
+                state['alpha'] = Fraction(float(key[1:]))
+        elif state.get('suppress'):
+            pass
+        elif name == b'cm':
+            a, b, c, d, e, f = (float(x) for x in nums[:6])
+            if (a, b, c, d) == (1, 0, 0, 1):
+                if (e, f) != (0, 0):
+                    state['transforms'] = state['transforms'] + (round(e),)
+            else:
+                state['transforms'] = state['transforms'] + (f'matrix({a},{b},{c},{d},{e},{f})',)
+        elif name == b'Tm':
+            state['tm'] = (nums[4].decode(), nums[5].decode(), tuple(x.decode() for x in nums[:4]))
+        elif name == b'Tf':
+            state['size'] = nums[1].decode()
+        elif name in (b'f', b'f*', b'TJ', b'Tj'):
+            alphas = ','.join(
+                str(x.numerator) if x.denominator == 1 else f'{x.numerator}/{x.denominator}'
+                for x in state['alphas'])
+            transforms = ','.join(str(t) for t in state['transforms'])
+            if name in (b'TJ', b'Tj'):
+                kind = 't'
+                x, y, abcd = state['tm']
+                geom = f'tm({show_dec(x)},{show_dec(y)},{show_dec(state["size"])})'
+                if abcd != ('1', '0', '0', '-1'):
+                    geom += f'!{abcd}'
+            else:
+                kind = 'f'
+                geom = '+'.join(subpaths)
+                subpaths = []
+            out.append(f'{kind}:{state["color"]}:{alphas}:{transforms}:{"|".join(state["clips"])}:{geom}')
+        elif name in (b'S', b's', b'B', b'B*', b'b', b'b*'):
+            out.append(f'stroke:{state["color"]}')
+            subpaths = []
+        elif name == b'Do':
+            key = nums[0][1:].decode()
+            inner = dict(state)
+            inner['color'] = None
+            inner['alphas'] = state['alphas'] + (state['alpha'],)
+            inner['alpha'] = Fraction(1)
+            out.extend(geo_display_list(stream._resources['XObject'][key], inner))
+    return out
+
+
+def paint_page_geo(document, page):
+    stream, _ = new_stream(document)
+    page.paint(stream, 1)
+    return ' '.join(geo_display_list(stream))
+
+
+NUMBER = None
+
+
+def snap(impl, model, tolerance=Fraction(1, 10000)):
+    """Canonicalise the implementation's geometric display list on the model's numbers: equal skeleton and
+    every number within `tolerance` -> the model's string (and how many numbers differed textually);
+    otherwise the implementation's string unchanged."""
+    import re
+    global NUMBER
+    if NUMBER is None:
+        NUMBER = re.compile(r'(?<![\w/])-?\d+(?:\.\d*)?(?![\w/])')
+    if impl == model:
+        return impl, 0
+    skeleton_i, skeleton_m = NUMBER.sub('#', impl), NUMBER.sub('#', model)
+    if skeleton_i != skeleton_m:
+        return impl, 0
+    ni, nm = NUMBER.findall(impl), NUMBER.findall(model)
+    differed = 0
+    for a, b in zip(ni, nm):
+        if a != b:
+            if abs(Fraction(a) - Fraction(b)) > tolerance:
+                return impl, 0
+            differed += 1
+    return model, differed
+
+
+# ---------------------------------------------------------------------------------------------------
+# ToUnicode: glyphs of the text-showing operators mapped back through the written CMap
+
+def paint_all(document):
+    """Paint every page (fills `font.cmap` of every font) -> list of streams."""
+    streams = []
+    for page in document.pages:
+        stream, _ = new_stream(document)
+        page.paint(stream, 1)
+        streams.append(stream)
+    return streams
+
+
+def written_cmaps(document):
+    """The ToUnicode streams `build_fonts_dictionary` writes: {font hash: [(glyph, [utf-16 units])]}."""
+    import re
+
+    import pydyf
+    from weasyprint import DEFAULT_OPTIONS
+    from weasyprint.pdf.fonts import build_fonts_dictionary
+    pdf = pydyf.PDF()
+    references = build_fonts_dictionary(pdf, document.fonts, False, True, dict(DEFAULT_OPTIONS))
+    by_number = {obj.number: obj for obj in pdf.objects if hasattr(obj, 'number')}
+    out = {}
+    for font_hash, reference in references.items():
+        font_dict = by_number[int(reference.split()[0])]
+        stream = by_number[int(font_dict['ToUnicode'].split()[0])]
+        entries, inside = [], False
+        for line in stream.stream:
+            if line.endswith(b'beginbfchar'):
+                inside = True
+            elif line == b'endbfchar':
+                inside = False
+            elif inside:
+                m = re.fullmatch(rb'<([0-9a-f]+)> <([0-9a-f]*)>', line)
+                units = [int(m.group(2)[i:i + 4], 16) for i in range(0, len(m.group(2)), 4)]
+                entries.append((int(m.group(1), 16), units))
+        out[font_hash] = entries
+    return out
+
+
+def text_runs(stream, runs=None):
+    """[(x, y, [(font, [glyph…])…])] for every text matrix set in the stream (groups included)."""
+    import re
+    if runs is None:
+        runs = []
+    font = None
+    for op in stream.stream:
+        tokens = op.split()
+        if not tokens:
+            continue
+        name = tokens[-1]
+        if name == b'Tf':
+            font = tokens[0][1:].decode()
+        elif name == b'Tm':
+            runs.append((tokens[4].decode(), tokens[5].decode(), []))
+        elif name in (b'TJ', b'Tj') and runs:
+            glyphs = []
+            for chunk in re.findall(rb'<([0-9a-f]*)>', op):
+                glyphs += [int(chunk[i:i + 4], 16) for i in range(0, len(chunk), 4)]
+            runs[-1][2].append((font, glyphs))
+        elif name == b'Do':
+            text_runs(stream._resources['XObject'][tokens[0][1:].decode()], runs)
+    return runs
+
+
+def utf16_units(text):
+    data = text.encode('utf-16-be')
+    return [int.from_bytes(data[i:i + 2], 'big') for i in range(0, len(data), 2)]
